@@ -351,6 +351,10 @@ func (s *IndexedStore) list(tx ReadOperator, index, pattern string, offset, limi
 		match = func([]byte) bool { return true }
 	}
 	var matches []string
+	if limit < 0 {
+		// No limit is enforced, but the pattern and the offset still apply.
+		limit = len(ids)
+	}
 	if limit >= 0 {
 		matches = DoListFunc(ids, match, offset, limit)
 	} else {
